@@ -75,6 +75,30 @@ def kernel_case(rng, n, method, dyadic, in_bounds=True, reversed_bounds=False):
             'hi': None if hi_none else [None if v is None else Q(v) for v in his]}
 
 
+def perturbed_case(rng, n, method):
+    """An in-bounds start with one entry ON a bound and a tiny outward step, where the value handed to the
+    kernel for that entry is u0 + alpha*du*(1+delta) (what rounding of u0 + alpha*du can produce)."""
+    for _ in range(50):
+        c = kernel_case(rng, n, method, True)
+        js = [j for j in range(n) if (c['lo'] and c['lo'][j] is not None) or (c['hi'] and c['hi'][j] is not None)]
+        if js:
+            break
+    else:
+        return c
+    j = rng.choice(js)
+    alpha = F(c['alpha'])
+    use_hi = c['hi'] is not None and c['hi'][j] is not None and (c['lo'] is None or c['lo'][j] is None or rng.random() < 0.5)
+    bound = F(c['hi'][j]) if use_hi else F(c['lo'][j])
+    tiny = Fraction(1, 2 ** rng.choice([12, 20, 30]))
+    du = tiny if use_hi else -tiny
+    delta = rng.choice([Fraction(1, 2), Fraction(1, 32), Fraction(2), Fraction(64)])
+    c['u0'][j] = Q(bound)
+    c['du'][j] = Q(du)
+    c['u'] = [Q(F(c['u0'][i]) + alpha * F(c['du'][i])) for i in range(n)]
+    c['u'][j] = Q(bound + alpha * du * (1 + delta))
+    return c
+
+
 def bspec(rng, vals, allow_none=True):
     """None | scalar | array encoding of a per-entry list (entries may be None = infinite)"""
     if all(v is None for v in vals):
@@ -151,7 +175,8 @@ class C10(Spec):
     impl_jobs = 4
     rule = ('kernel cases: random lengths 1..5, bound patterns (missing arrays, infinite entries, degenerate and reversed '
             'intervals), starts inside and on the bounds, steps landing on / crossing / away from the bounds, zero steps, '
-            'rational alpha, x 3 methods; setup cases: scalar/array lower/upper/ref/ref0 with ref<ref0 and negative ref; '
+            'rational alpha, x 3 methods; perturbed cases: an entry on its bound with a tiny outward step whose u is not exactly '
+            'u0 + alpha*du (rounding); setup cases: scalar/array lower/upper/ref/ref0 with ref<ref0 and negative ref; '
             'Newton cases: linear and cubic bounded implicit components x 2 line-search classes x 3 methods x random scalings; '
             'non-trivial = at least one entry changed by the enforcement')
     assumptions = ['kernels are run on Fraction object arrays through a duck-typed vector (add_scal_vec, *=, +=, asarray)',
@@ -194,6 +219,8 @@ class C10(Spec):
                 # the None paths put a float 0. into the arithmetic: keep those cases dyadic (E3)
                 c = kernel_case(rng, n, method, True)
             cases.append(c)
+        for i in range(600 if quick else 20000):
+            cases.append(perturbed_case(rng, rng.choice([2, 3, 4]), METHODS[i % 3]))
         # _setup_solvers
         for i in range(250 if quick else 3000):
             c, *_ = comp_case(rng, 'setup', rng.choice([1, 2, 3]), True, 'scalar', 'BE')
@@ -236,7 +263,7 @@ class C10(Spec):
             hi = c['hi'] or [None] * n
             ents = []
             for i in range(n):
-                u = F(c['u0'][i]) + alpha * F(c['du'][i])
+                u = F(c['u'][i]) if 'u' in c else F(c['u0'][i]) + alpha * F(c['du'][i])
                 ents.append('(mkent %s %s %s %s)' % (qlit(u), qlit(F(c['du'][i])), oq(lo[i]), oq(hi[i])))
             return '(run_kernel %s %s [%s])' % (MCTOR[c['method']], qlit(alpha), '; '.join(ents))
         if c['kind'] == 'setup':
@@ -257,8 +284,8 @@ class C10(Spec):
             if n > 1:
                 for i in range(n):
                     d = dict(c)
-                    for k in ('u0', 'du', 'lo', 'hi'):
-                        if d[k] is not None:
+                    for k in ('u0', 'du', 'lo', 'hi', 'u'):
+                        if d.get(k) is not None:
                             d[k] = d[k][:i] + d[k][i + 1:]
                     yield d
         elif c['kind'] == 'newton':
